@@ -733,6 +733,12 @@ type FileParams struct {
 	// ConsDis: the first consumer is disabled: "lit" by a pipeline input
 	// bound to true, "dyn" by a stage output that is true at run time.
 	ConsDis string `json:",omitempty"`
+	// NoCons: no stage consumes the output (it is only returned by the
+	// top-level pipeline and / or retained, or not needed at all).
+	NoCons bool `json:",omitempty"`
+	// ProdDyn: the mapped producer maps over an array produced at run time
+	// (its forks are expanded while the pipestance runs).
+	ProdDyn bool `json:",omitempty"`
 }
 
 func (d FileParams) String() string {
@@ -742,6 +748,12 @@ func (d FileParams) String() string {
 	}
 	if d.ConsDis != "" {
 		sec += " consdis=" + d.ConsDis
+	}
+	if d.NoCons {
+		sec += " nocons=true"
+	}
+	if d.ProdDyn {
+		sec += " proddyn=true"
 	}
 	return fmt.Sprintf("files{out=%s proj=%q prod=%s prodwrap=%v conswrap=%v consmap=%v prodmap=%v late=%v vol=%q retain=%q topout=%v mode=%s size=%d phys=%v%s}",
 		d.Out, d.Proj, d.Prod, d.ProdWrap, d.ConsWrap, d.ConsMap, d.ProdMap, d.Late, d.Vol, d.Retain, d.TopOut, d.Mode, d.Size, d.Phys, sec)
@@ -857,9 +869,20 @@ func FileFlow(d FileParams) *Program {
 	if d.Vol == "call" {
 		prodCall.Volatile = "true"
 	}
+	if d.ProdDyn && !d.ProdMap {
+		return nil
+	}
 	if d.ProdMap {
 		prodCall.Map = true
 		prodCall.Binds = []Bind{{"n", SplitE(Lit(Arr(Int(size), Int(size+1))))}}
+		if d.ProdDyn {
+			// GEN.arr has n elements, known only when GEN has run
+			top.Calls = append(top.Calls, &Call{Callee: "GEN", Binds: []Bind{{"n", Lit(Int(3))}}})
+			prodCall.Binds = []Bind{{"n", SplitE(Ref("GEN", "arr"))}}
+		}
+	}
+	if d.NoCons && (d.Late || d.ConsWrap || d.ConsMap || d.Second || d.ConsDis != "") {
+		return nil
 	}
 	var srcE, secondE *Exp
 	pth := strings.Trim(d.Out+"."+d.Proj, ".")
@@ -914,7 +937,9 @@ func FileFlow(d FileParams) *Program {
 		}
 		return c, rt
 	}
-	if d.ConsWrap {
+	if d.NoCons {
+		// nothing reads the files while the pipestance runs
+	} else if d.ConsWrap {
 		if d.ConsMap {
 			return nil
 		}
@@ -1018,17 +1043,31 @@ func FileFamily(maxDev int) []FileParams {
 													for h, phys := range bools {
 														for k, second := range bools {
 															for cdi, cd := range []string{"", "lit", "dyn"} {
-																dev := 0
-																for _, x := range []int{oi, pi, di, ri, a, b, c, e, f, g, h, k, cdi} {
-																	if x != 0 {
-																		dev++
+																for nci, nc := range bools {
+																	for pdi, pd := range bools {
+																		dev := 0
+																		for _, x := range []int{oi, pi, di, ri, a, b, c, e, f, g, h, k, cdi, nci} {
+																			if x != 0 {
+																				dev++
+																			}
+																		}
+																		// "returned by the top-level pipeline and read by nobody else" is one step away from the base
+																		if nci != 0 && g != 0 {
+																			dev--
+																		}
+																		// a run-time source is a property of the mapped producer, not a dimension of its own
+																		_ = pdi
+																		if pd && !pm {
+																			continue
+																		}
+																		if dev > maxDev {
+																			continue
+																		}
+																		out = append(out, FileParams{Out: o, Proj: pr, Prod: prod, ProdWrap: pw, ConsWrap: cw,
+																			ConsMap: cm, ProdMap: pm, Late: late, Vol: vol, Retain: ret, TopOut: topo, Mode: mode, Size: 2, Phys: phys, Second: second, ConsDis: cd,
+																			NoCons: nc, ProdDyn: pd})
 																	}
 																}
-																if dev > maxDev {
-																	continue
-																}
-																out = append(out, FileParams{Out: o, Proj: pr, Prod: prod, ProdWrap: pw, ConsWrap: cw,
-																	ConsMap: cm, ProdMap: pm, Late: late, Vol: vol, Retain: ret, TopOut: topo, Mode: mode, Size: 2, Phys: phys, Second: second, ConsDis: cd})
 															}
 														}
 													}
